@@ -1,10 +1,151 @@
 import BFL.Driver.Proto
-/- Driver entries of this group (stub: no operation handled yet). -/
+import BFL.Model.Fault
+/-
+Driver entries for C12 (beliefs instantiated symbolically: `Sym`).
+
+  fault <class> <seed> <n> <m> <k> <sub> fz=<bits> me=<bits> pr=<bits> in=<bits> no=<bits> li=<bits>
+     class: kf | ukfa | ukfg | sukf | glik | bootg | boots | gpf-<kf|ukfa|ukfg|sukf>-<g|s>
+     optional trailing token reps=<r>: r successive calls on the same object (scripts consumed across calls),
+     or ep=<e0>/<e1>/…: one call per epoch, the methods named in e_i unavailable during that whole call
+     -> r0:<pred|full|partial|none|some>:<me1,pr0,…|-> r1:…
+  fault sis-<bootg|boots> <seed> <n> <m> <k> <steps> fz=… …
+     -> s0:<pred|corrected|normpred>:<calls> s1:…
+-/
 namespace BFL.DriverFault
-open BFL BFL.Proto
+open BFL BFL.Proto BFL.Fault
+
+abbrev P := BFL.Proto.R
+abbrev FR := BFL.Fault.R
+
+def parseBits (pre : String) (t : String) : Option (List Bool) :=
+  if t.startsWith (pre ++ "=") then
+    let b := (t.drop (pre.length + 1)).toString
+    if b == "-" then some []
+    else if b.toList.all (fun c => c == '0' || c == '1') then some (b.toList.map (· == '1'))
+    else none
+  else none
+
+def readScript : P Script := do
+  let rd (pre : String) : P (List Bool) := do
+    let t ← tok
+    match parseBits pre t with
+    | some l => pure l
+    | none => failure
+  let fz ← rd "fz"; let me ← rd "me"; let pr ← rd "pr"; let inn ← rd "in"; let no ← rd "no"; let li ← rd "li"
+  pure { freeze := fz, measure := me, predicted := pr, innovation := inn, noise := no, lik := li }
+
+def methodStr : Method → String
+  | .freeze => "fz" | .measure => "me" | .predictedMeasure => "pr"
+  | .innovation => "in" | .noiseCov => "no" | .likelihood => "li"
+
+def logStr (l : List Entry) : String :=
+  if l.isEmpty then "-" else ",".intercalate (l.map fun e => methodStr e.method ++ (if e.valid then "1" else "0"))
+
+def symLabel : Sym → String
+  | .pred => "pred"
+  | .full .pred .poison => "full"
+  | .updated .pred => "full"
+  | .weighed .pred (.sampled (.full .pred .poison)) => "full"
+  | .weighed .pred (.sampled .pred) => "partial"
+  | .normalised (.updated .pred) => "corrected"
+  | .normalised .pred => "normpred"
+  | _ => "other"
+
+/-- the wrapped / stand-alone Gaussian corrections; `noiseCount` = k · (m / sub) for the serial one -/
+def gaussOf (cls : String) (m k sub : Nat) : Option (Script → Sym → Sym → FR Sym) :=
+  match cls with
+  | "kf" => some (kfCorrect Sym.full)
+  | "ukfa" => some (ukfCorrect .additive Sym.full)
+  | "ukfg" => some (ukfCorrect .generic Sym.full)
+  | "sukf" => some (sukfCorrect (m % sub == 0) (k * (m / sub)) Sym.full)
+  | _ => none
+
+def likOf (c : String) (site : Site) : Option (Script → FR (Option Unit)) :=
+  match c with
+  | "g" => some (gaussLik ())
+  | "s" => some (scriptedLik () site)
+  | _ => none
+
+def sisSteps (lik : Script → FR (Option Unit)) : Nat → Nat → Script → List String
+  | 0, _, _ => []
+  | fuel + 1, i, s =>
+    let r := sisCorrectPhase (fun s p _ => bootCorrect lik (fun p _ => Sym.updated p) s p) Sym.normalised s Sym.pred Sym.poison
+    ("s" ++ toString i ++ ":" ++ symLabel r.val ++ ":" ++ logStr r.log) :: sisSteps lik fuel (i + 1) r.script
+
+/-- `reps` successive calls on the same object, the script being consumed across the calls -/
+def repeatCalls (f : Script → String × String × Script) : Nat → Nat → Script → List String
+  | 0, _, _ => []
+  | fuel + 1, i, s =>
+    let (lab, log, s') := f s
+    ("r" ++ toString i ++ ":" ++ lab ++ ":" ++ log) :: repeatCalls f fuel (i + 1) s'
+
+/-- An epoch `e` (`-` or a concatenation of method codes) as a script: the named methods answer
+    "unavailable" at every call of that epoch (64 scripted answers; no class asks that often). -/
+def epochScript (e : String) : Option Script :=
+  let codes : List String := if e == "-" then [] else
+    (List.range (e.length / 2)).map fun i => ((e.drop (2 * i)).take 2).toString
+  if e != "-" && (e.length % 2 != 0 || e.length == 0) then none
+  else if codes.all (fun c => ["fz", "me", "pr", "in", "no", "li"].contains c) then
+    let un (c : String) : List Bool := if codes.contains c then List.replicate 64 false else []
+    some { freeze := un "fz", measure := un "me", predicted := un "pr", innovation := un "in", noise := un "no", lik := un "li" }
+  else none
+
+def parseEpochs (t : String) : Option (List Script) :=
+  ((t.drop 3).toString.splitOn "/").mapM epochScript
+
+def epochCalls (f : Script → String × String × Script) : Nat → List Script → List String
+  | _, [] => []
+  | i, s :: ss =>
+    let (lab, log, _) := f s
+    ("r" ++ toString i ++ ":" ++ lab ++ ":" ++ log) :: epochCalls f (i + 1) ss
+
+def faultLine : P String := do
+  let cls ← tok
+  let _ ← nat; let _ ← nat; let m ← nat; let k ← nat; let sub ← nat
+  let s ← readScript
+  let rest ← get
+  let (reps, epochs) ← match rest with
+    | [] => pure (1, ([] : List Script))
+    | [t] => (if t.startsWith "reps=" then
+                match (t.drop 5).toString.toNat? with
+                | some r => pure (r, [])
+                | none => failure
+              else if t.startsWith "ep=" then
+                match parseEpochs t with
+                | some es => pure (es.length, es)
+                | none => failure
+              else failure)
+    | _ => failure
+  set ([] : List String)
+  if sub == 0 then failure
+  let sym (f : Script → FR Sym) : Script → String × String × Script :=
+    fun s => let r := f s; (symLabel r.val, logStr r.log, r.script)
+  let go (f : Script → String × String × Script) : P String :=
+    pure (join (if epochs.isEmpty then repeatCalls f reps 0 s else epochCalls f 0 epochs))
+  match cls.splitOn "-" with
+  | ["glik"] =>
+    go (fun s => let r := gaussLik () s; ((if r.val.isSome then "some" else "none"), logStr r.log, r.script))
+  | ["bootg"] => go (sym (fun s => bootCorrect (gaussLik ()) (fun p _ => Sym.updated p) s Sym.pred))
+  | ["boots"] => go (sym (fun s => bootCorrect (scriptedLik () .boot) (fun p _ => Sym.updated p) s Sym.pred))
+  | ["gpf", w, l] =>
+    match gaussOf w m k sub, likOf l .gpf with
+    | some g, some lk => go (sym (fun s => gpfCorrect g Sym.sampled lk (fun p c _ => Sym.weighed p c) s Sym.pred Sym.poison))
+    | _, _ => failure
+  | ["sis", b] =>
+    match (if b == "bootg" then likOf "g" .boot else if b == "boots" then likOf "s" .boot else none) with
+    | some lk =>
+      if epochs.isEmpty then pure (join (sisSteps lk sub 0 s))
+      else pure (join ((epochs.zipIdx).flatMap fun (es, i) => sisSteps lk 1 i es))
+    | none => failure
+  | [c] =>
+    match gaussOf c m k sub with
+    | some g => go (sym (fun s => g s Sym.pred Sym.poison))
+    | none => failure
+  | _ => failure
 
 def handle (op : String) (args : List String) : Option String :=
   match op with
+  | "fault" => some ((BFL.Proto.run faultLine args).getD "bad-args")
   | _ => none
 
 end BFL.DriverFault
